@@ -4,7 +4,11 @@ perturbed and adversarial schedules; the Lean LTS (Model/MTProto.lean) replays e
 (trace inclusion).  Monitors: every frame decodes to the input, every call returns (hang detector), ThreadSanitizer reports nothing.
 Allocation faults (op `mtf`): the same harness with a ZSTD_customMem allocator that refuses one request (any thread / a worker / the caller / the worker of
 job j, request number swept) while another job is held back before its serial turn: the call returns an error or a frame that decodes, never blocks, the
-context is reusable, nothing stays allocated; the serial hand-over of every failed job is compared with the `fail` transition of the LTS."""
+context is reusable, nothing stays allocated; the serial hand-over of every failed job is compared with the `fail` transition of the LTS.
+Lagging serial step at the wrap of the round buffer (op `mth`): long-distance matching, window >= workers x job size, the worker of one job parked (nothing refused)
+before / inside its serial turn until the caller waits for the window of the long-distance matcher at the wrap; the job that takes the next turn repeats bytes that sit
+next to the ranges the wrap rewrites (relocated overlap, first section loaded after it); the frame must decode (one-pass + declared-window streaming decoder), the
+trace is replayed by the LTS, a sample runs under ThreadSanitizer (the parked worker polls relaxed atomics only: no ordering is added)."""
 import os, re
 import build, zv, frames
 
@@ -107,6 +111,56 @@ def gen_fault_ops(rng, quick):
     return d_ops, s_ops, l_ops
 
 
+def mth_op(workers, p, seed, hrel, where, hold_us, ins, outs, perturb, pseed, T, R, ypm, extra):
+    return "mth %d %s %d %d %d %d %s %s %d %d %d %d %d %d" % (workers, frames.pstr(p), seed, hrel, where, hold_us, ins, outs, perturb, pseed, T, R, ypm, extra)
+
+
+def gen_hold_ops(rng, quick):
+    """the serial step lags behind the caller when the round input buffer wraps.  With long-distance matching and window >= workers x job size the buffer is
+    window + 3 sections (K sections); the caller can be `workers` jobs + one section ahead of the serial state, so with job h = K - workers + hrel parked before its
+    serial turn (where 0) or inside it, before the window is published (where 1; the next job is the one that reads), the caller reaches the wrap while the window
+    of the long-distance matcher still starts at the beginning of the buffer as long as (h + where + 1) x job size <= window: 4..6 workers, job sizes 512 KiB /
+    600000 / 1 MiB, windows 2^21..2^23, overlap 8 KiB..one section, levels 1..5, checksum, input chunks below / at / above the job size, small / large output room.
+    3 and 2 workers: the caller still has to wait at the wrap (schedule kept), but the window has moved past the start of the buffer when the parked job reads."""
+    S = 524288
+    cfgs = [(4, {101: 21, 401: S}, (0,), 0), (4, {101: 21, 401: S, 201: 1}, (0,), 0), (4, {101: 22, 401: 600000, 201: 1}, (0,), 0), (4, {101: 22, 401: 1 << 20}, (0,), 0),
+            (4, {101: 21, 401: S, 402: rng.choice([3, 7, 9])}, (0,), 0), (4, {101: 21, 401: S, 100: rng.choice([3, 5])}, (0,), 0),
+            (5, {101: 22, 401: S, 201: 1}, (0, 1), 0), (5, {101: 22, 401: S}, (0,), 1), (6, {101: 22, 401: S}, (0, 1, 2), 0), (6, {101: 22, 401: S, 201: 1}, (0, 1), 1),
+            (3, {101: 21, 401: S, 201: 1}, (0,), 0), (2, {101: 20, 401: S}, (0,), 0)]
+    if not quick:
+        cfgs += [(4, {101: 23, 401: S, 201: 1}, (0,), 0), (5, {101: 23, 401: 1 << 20}, (0, 1), 0), (6, {101: 23, 401: 1 << 20, 201: 1}, (0, 1, 2), 0), (6, {101: 23, 401: 1 << 20}, (0, 1), 1)]
+    ops = []
+    for rep in range(1 if quick else 6):
+        for w, p, hrels, where in cfgs:
+            for hrel in (hrels if not quick else [rng.choice(hrels)] if w != 6 else hrels[:2]):
+                q = {100: 1, 160: 1, **p}
+                js = q[401]
+                ins = rng.choice([str(js), str(js), "300000", "1000000", "100000,700000", "6000000"]); outs = rng.choice(["8000000", "8000000", "60000", "8000000,0"])
+                ops.append(mth_op(w, q, rng.randrange(1 << 30), hrel, where, 3000000, ins, outs, rng.choice([0, 0, 0, 1]), rng.randrange(1 << 30),
+                                  rng.choice([64, 1000, 4096, 4096, 30000, 70000]), rng.choice([2048, 8192, 8192, 30000]), rng.randrange(1000), rng.choice([1, 2])))
+    return ops
+
+
+def hold_family(ctx, ops, stats):
+    """runs the `mth` ops in the plain build; returns (event logs for the model, their ops)"""
+    logs, meta = [], []
+    for op, (rc, out, err) in zip(ops, run_all(hx("plain"), ops, timeout=300)):
+        lines = out.split("\n")
+        endl = [l for l in lines if l.startswith("end ")]
+        if rc != 0 or not endl:
+            what = "a call never returned (blocked)" if (endl and "hang" in endl[-1]) or rc == -999 else "crash (exit %d)" % rc
+            ctx.violation("multithreaded compression, worker parked while the caller wraps the round buffer: %s: %s | %s" % (what, op, (endl[-1] if endl else err[-300:])), dict(kind="monitor", op=op, stderr=err[-1500:], tail=lines[-40:]))
+            continue
+        if not endl[-1].startswith("end ok"):
+            ctx.violation("multithreaded compression, worker parked while the caller wraps the round buffer: %s -> %s" % (op, endl[-1]), dict(kind="monitor", op=op, result=endl[-1], tail=lines[-40:]))
+            continue
+        stats["hold_runs"] += 1; stats["hold_caller_waited_at_wrap"] += int("rel=ldmwait" in endl[-1]); stats["frames"] += 1
+        evs = [l for l in lines if l and not l.startswith("end ")]
+        stats["events"] += len(evs)
+        logs.append(";".join(evs)); meta.append(op)
+    return logs, meta
+
+
 def fault_family(ctx, ops, stats):
     """runs the `mtf` ops in the plain build; returns (event logs for the model, their ops)"""
     logs, meta = [], []
@@ -184,6 +238,12 @@ def correspondence(ctx):
     fops = dir_ops + sw_ops + ldm_ops
     flogs, fmeta = fault_family(ctx, fops, stats)
     logs += flogs; meta += fmeta
+    # the serial step lags behind the caller at the wrap of the round buffer (a worker parked, nothing refused), long-distance matching
+    stats.update(hold_runs=0, hold_caller_waited_at_wrap=0)
+    hrng = zv.Rng(ctx.seed * 6151 + 977)         # own stream
+    hops = gen_hold_ops(hrng, quick)
+    hlogs, hmeta = hold_family(ctx, hops, stats)
+    logs += hlogs; meta += hmeta
     if logs:
         rcm, mout, merr = zv.run([zv.driver_exe(), "mtproto"], "\n".join(logs) + "\n", timeout=1200)
         mo = mout.split("\n")
@@ -246,7 +306,17 @@ def correspondence(ctx):
             if "end FAIL hang" in out and "ThreadSanitizer" not in err:
                 continue       # the TSan build is ~10x slower: the 120 s limit is not a verdict here
             ctx.violation("ThreadSanitizer / crash in the TSan build: %s -> %s" % (op, err[-400:]), dict(kind="monitor-tsan", op=op, stderr=err[-3000:]))
-    return dict(evaluations=len(ops) + len(tops) + len(fops) + len(fsops), distinct_nontrivial=len(set(ops)) + len(set(fops)),
+    # the parked-worker runs under ThreadSanitizer: the caller's writes into the round buffer against the reads of the long-distance matcher
+    htops = hops[:7] if quick else hops
+    for op, (rc, out, err) in zip(htops, run_all(hx("tsan"), htops, timeout=1500, env=env)):
+        last = out.strip().split("\n")[-1] if out.strip() else ""
+        if "ThreadSanitizer" in err or rc not in (0,):
+            if "end FAIL hang" in out and "ThreadSanitizer" not in err:
+                continue
+            ctx.violation("ThreadSanitizer / crash in the TSan build, worker parked while the caller wraps the round buffer: %s -> %s" % (op, err[-400:]), dict(kind="monitor-tsan", op=op, stderr=err[-3000:]))
+        elif last.startswith("end FAIL"):
+            ctx.violation("TSan build, worker parked while the caller wraps the round buffer: %s -> %s" % (op, last), dict(kind="monitor-tsan", op=op, result=last))
+    return dict(evaluations=len(ops) + len(tops) + len(fops) + len(fsops) + len(hops) + len(htops), hold_runs=stats["hold_runs"], hold_runs_caller_waited_at_wrap=stats["hold_caller_waited_at_wrap"], distinct_nontrivial=len(set(ops)) + len(set(fops)),
                 rule="one evaluation = one multi-frame run (1..6 workers, job sizes, overlap, LDM, rsyncable, checksum, mid-frame level change, aborted first frame, worker-count change between frames, 1-byte..8 MB in/out windows) under one schedule preset; "
                      "every run's event list replayed by the Lean LTS; first %d runs repeated under ThreadSanitizer; %d runs of three frames with one allocator request refused (request number swept per thread class / per job, older job held back before its serial turn)" % (len(tops), len(fops)),
                 allocation_fault_runs=len(fops), allocation_faults_fired=stats["faults_fired"], allocation_fault_errors_returned=stats["fault_errors_returned"],
@@ -258,6 +328,9 @@ def replay(ctx, data):
     if data.get("kind") == "monitor-san":
         rc, out, err = zv.run([build.link("zvh_mt", ["zvh_mt.c"], "san", exclude=("pool.c", "zstdmt_compress.c"), extra=["-DZV_NOTRACE"])], op + "\n", timeout=900)
         return dict(violates=rc != 0 or "end ok" not in out, result=out.strip().split("\n")[-1:], stderr=err[-1500:])
+    if data.get("kind") == "monitor-tsan" and op.startswith("mth "):
+        rc, out, err = zv.run([hx("tsan")], op + "\n", timeout=900, env=dict(os.environ, TSAN_OPTIONS="halt_on_error=1 second_deadlock_stack=1"))
+        return dict(violates=rc != 0 or "ThreadSanitizer" in err or "end ok" not in out, result=out.strip().split("\n")[-1:], stderr=err[-1500:])
     rc, out, err = zv.run([hx("plain")], op + "\n", timeout=900)
     lines = out.split("\n")
     endl = [l for l in lines if l.startswith("end ")]
